@@ -56,9 +56,18 @@ def _run_one(args):
 
 
 def load_known():
-    if not os.path.exists(KNOWN):
-        return {"findings": [], "fixed": []}
-    return json.load(open(KNOWN))
+    """known_findings.json plus per-property fragments known_findings.d/*.json (all committed,
+    never written at run time)."""
+    k = {"findings": [], "fixed": []}
+    paths = [KNOWN] if os.path.exists(KNOWN) else []
+    d = os.path.join(ROOT, "known_findings.d")
+    if os.path.isdir(d):
+        paths += sorted(os.path.join(d, f) for f in os.listdir(d) if f.endswith(".json"))
+    for p in paths:
+        j = json.load(open(p))
+        k["findings"] += j.get("findings", [])
+        k["fixed"] += j.get("fixed", [])
+    return k
 
 
 def strip_path(name):
